@@ -10,6 +10,12 @@ import PypyrModel.Fmt
 import PypyrModel.FmtHeap
 import Props.Lemmas.C09_Tree
 import Props.Lemmas.C09_Heap
+import Props.Lemmas.C09_Sim
+import Props.Lemmas.C09_Memo
+import Props.Lemmas.C09_Wf
+import Props.Lemmas.C09_Nodes
+import Props.Lemmas.C09_Faithful
+import Props.Lemmas.C09_Basic
 
 namespace Pypyr.C09
 open Pypyr Pypyr.FmtHeap
@@ -296,17 +302,131 @@ example : braceFree (.dict [(.str "k", .list [.str "plain", .int 1, .set [.none]
     wfVal (.dict [(.str "k", .list [.str "plain", .int 1, .set [.none]])]) = true ∧
     need (.dict [(.str "k", .list [.str "plain", .int 1, .set [.none]])]) = 4 := by decide +kernel
 
-/-- **Idempotence on brace-free results**: if formatting `v` gave `r` and `r` is brace-free (and a
-    well-formed value), then formatting `r` again — against any context, with any fuel that lets it
-    finish — gives `r`; and with fuel `need r` it does finish. -/
+/-- **`fmt_preserves_wf`.** Whatever formatting returns satisfies the representation invariant of dicts and
+    sets (`wfVal`: keys / members pairwise distinct at every node), provided the context values do — for every
+    input value whatsoever (the rebuilt dicts and sets establish it; context objects are handed back as they
+    are through `{k}`, `{k:ff}`, `!py`). -/
+theorem fmt_preserves_wf (fuel : Nat) (ctx : Ctx) (isRec : Bool) (v r : Val) (hctx : CtxWf ctx)
+    (h : fmtIter fuel ctx isRec v = .ok r) : wfVal r = true :=
+  (fmt_wf_all fuel).1 ctx isRec v r hctx h
+
+/-- **Idempotence on brace-free results**: if formatting `v` gave `r` and `r` is brace-free, then formatting
+    `r` again — against any context, with any fuel that lets it finish — gives `r`; and with fuel `need r` it
+    does finish. No hypothesis on the OUTPUT `r` beyond "brace-free": that it is a well-formed value follows
+    from `fmt_preserves_wf` (the context values of the first call are well-formed: what Python dicts and sets
+    always are). -/
 theorem fmt_idempotent_on_bracefree_result (fuel fuel' : Nat) (ctx ctx' : Ctx) (v r : Val)
-    (_h : fmtVal fuel ctx v = .ok r) (hb : braceFree r = true) (hw : wfVal r = true) :
+    (hctx : CtxWf ctx) (h : fmtVal fuel ctx v = .ok r) (hb : braceFree r = true) :
     (∀ r', fmtVal fuel' ctx' r = .ok r' → r' = r) ∧ (need r ≤ fuel' → fmtVal fuel' ctx' r = .ok r) :=
+  have hw : wfVal r = true := fmt_preserves_wf fuel ctx false v r hctx h
   ⟨fun r' h' => fmt_bracefree_id fuel' ctx' false r r' hb hw h',
    fun hn => fmt_bracefree_total fuel' ctx' false r hb hw hn⟩
 
+example : CtxWf [("a", .list [.str "x", .int 1])] := by
+  intro k v h
+  simp only [Ctx.get?] at h
+  split at h
+  · cases h; decide
+  · cases h
+
 example : fmtVal 6 [("a", .list [.str "x", .int 1])] (.str "{a}") = .ok (.list [.str "x", .int 1]) ∧
     braceFree (.list [.str "x", .int 1]) = true := by decide +kernel
+
+
+/-! ## The same claims on the FAITHFUL tree-level model
+
+  `Pypyr.fmtIter` above is the model on the simple expression grammar: it compares dict keys and set members
+  structurally and has no hash check (`{'{a}': 1}` with `a = []` is `.ok` there, `TypeError: unhashable type:
+  'list'` in Python). `Format.fmtIter` (`PypyrModel/Format.lean`, the model C08's correspondence validates on the
+  whole grammar) builds dicts and sets by Python equality (`True == 1 == 1.0`: `dictPut` / `setPut`) and raises
+  that TypeError. The tree-level claims hold for it too (Props/Lemmas/C09_Faithful.lean); `C09F.WfPy` is the
+  representation invariant by Python equality, `C09F.KeysHashF` "every key / member is hashable". -/
+
+/-- Kind preservation: same constructor at every container node, children formatted pair by pair / member by
+    member, dicts and sets built by Python's insertion. -/
+theorem faithful_kind_preserved (fuel : Nat) (ctx : Ctx) (isRec : Bool) (v r : Val)
+    (h : Format.fmtIter fuel ctx isRec v = .ok r) : C09F.ShapedF v r :=
+  C09F.faithful_shaped fuel ctx isRec v r h
+
+/-- Non-string leaves come through equal. -/
+theorem faithful_nonstring_leaf_id (fuel : Nat) (ctx : Ctx) (isRec : Bool) (v : Val) (h : isLeafVal v = true) :
+    Format.fmtIter (fuel + 1) ctx isRec v = .ok v :=
+  C09F.faithful_leaf_id fuel ctx isRec v h
+
+/-- Brace-free values are returned equal to the input — whatever is returned … -/
+theorem faithful_bracefree_id (fuel : Nat) (ctx : Ctx) (isRec : Bool) (v r : Val)
+    (hb : braceFree v = true) (hw : C09F.WfPy v) (h : Format.fmtIter fuel ctx isRec v = .ok r) : r = v :=
+  C09F.faithful_bracefree_id fuel ctx isRec v r hb hw h
+
+/-- … and with fuel at least the nesting depth and hashable keys / members it IS returned (in particular: no
+    lookup, no TypeError). -/
+theorem faithful_bracefree_total (fuel : Nat) (ctx : Ctx) (isRec : Bool) (v : Val)
+    (hb : braceFree v = true) (hw : C09F.WfPy v) (hh : C09F.KeysHashF v) (hn : need v ≤ fuel) :
+    Format.fmtIter fuel ctx isRec v = .ok v :=
+  C09F.faithful_bracefree_total fuel ctx isRec v hb hw hh hn
+
+/-- The faithful formatter's output satisfies the representation invariant by Python equality when the
+    context values and the input do (`dictPut` / `setPut` establish it for rebuilt dicts and sets; lookups,
+    conversions and `!py` only select from well-formed values or produce text). -/
+theorem faithful_preserves_wf (fuel : Nat) (ctx : Ctx) (isRec : Bool) (v r : Val)
+    (hctx : C09F.CtxWfPy ctx) (hv : C09F.WfPy v) (h : Format.fmtIter fuel ctx isRec v = .ok r) : C09F.WfPy r :=
+  (C09F.faithful_wf_all fuel).1 ctx isRec v r hctx hv h
+
+/-- Idempotence on brace-free results, faithful model: no hypothesis on the output beyond "brace-free". -/
+theorem faithful_idempotent (fuel fuel' : Nat) (ctx ctx' : Ctx) (v r : Val)
+    (hctx : C09F.CtxWfPy ctx) (hv : C09F.WfPy v) (h : Format.fmtVal fuel ctx v = .ok r)
+    (hb : braceFree r = true) :
+    ∀ r', Format.fmtVal fuel' ctx' r = .ok r' → r' = r :=
+  fun r' h' => C09F.faithful_bracefree_id fuel' ctx' false r r' hb
+    (faithful_preserves_wf fuel ctx false v r hctx hv h) h'
+
+/-- **The two tree-level models, related (`basic_of_faithful`).** On the fragment `C09B.Frag` — every string a
+    string of the simple grammar (literal text, `{{`, `}}`, `{name}`, `{name:rf}`, `{name:ff}` with a simple
+    name), dict keys and set members plain (brace-free strings, None, ints, bytes, objects: expressions only in
+    VALUES) — in the value and in every context value: whatever the faithful model returns with fuel `f`, the
+    basic model returns with fuel `2 * f`. Together with `fmtH_simulates_tree` all three models are tied by
+    theorems; outside the fragment (expression keys, numeric key collisions, the full grammar) the two tree
+    models are compared by the harness (`basic_agrees` in C08, `faithful:agrees` here). -/
+theorem basic_of_faithful (f : Nat) (ctx : Ctx) (isRec : Bool) (v w : Val)
+    (hctx : C09B.FragCtx ctx) (hv : C09B.Frag v) (h : Format.fmtIter f ctx isRec v = .ok w) :
+    Pypyr.fmtIter (2 * f) ctx isRec v = .ok w :=
+  C09B.basic_of_faithful f ctx isRec v w hctx hv h
+
+/-- the fragment is inhabited by non-trivial values: `'a{{b}} {k:rf}'` is the rendering of four simple chunks -/
+example : C09B.Frag (.list [.str "a{{b}} {k:rf}", .dict [(.str "key", .str "{k}")]]) := by
+  simp only [C09B.Frag, C09B.FragL, C09B.FragP, and_true]
+  refine ⟨⟨[.text "a".toList, .lbrace, .text "b".toList, .rbrace, .text " ".toList, .expr ⟨"k".toList, "rf".toList, none⟩],
+    ?_, by decide⟩, ?_, ⟨[.expr ⟨"k".toList, [], none⟩], ?_, by decide⟩⟩
+  · intro c hc
+    simp only [List.mem_cons, List.not_mem_nil, or_false] at hc
+    rcases hc with rfl | rfl | rfl | rfl | rfl | rfl
+    · exact ⟨by decide, by decide⟩
+    · trivial
+    · exact ⟨by decide, by decide⟩
+    · trivial
+    · exact ⟨by decide, by decide⟩
+    · exact ⟨⟨by decide, by decide, by decide⟩, rfl, Or.inr (Or.inl rfl)⟩
+  · intro k hk
+    simp [keysOf] at hk
+    subst hk
+    show strBraceFree "key" = true
+    decide
+  · intro c hc
+    simp only [List.mem_cons, List.not_mem_nil, or_false] at hc
+    subst hc
+    exact ⟨⟨by decide, by decide, by decide⟩, rfl, Or.inl rfl⟩
+
+/-- The hash check is what separates the two tree models: an unhashable formatted key is a TypeError in the
+    faithful model (and in Python), a value in the basic one; `True` and `1` as keys merge in the faithful model
+    (and in Python), stay apart in the basic one. The harness compares the implementation with BOTH. -/
+example :
+    Format.fmtVal 5 [("a", .list [])] (.dict [(.str "{a}", .int 1)]) = .error (Format.errUnhashable "list") ∧
+    fmtVal 5 [("a", .list [])] (.dict [(.str "{a}", .int 1)]) = .ok (.dict [(.list [], .int 1)]) ∧
+    Format.fmtVal 5 [("a", .bool true)] (.dict [(.str "{a}", .int 1), (.int 1, .int 2)])
+      = .ok (.dict [(.bool true, .int 2)]) ∧
+    fmtVal 5 [("a", .bool true)] (.dict [(.str "{a}", .int 1), (.int 1, .int 2)])
+      = .ok (.dict [(.bool true, .int 1), (.int 1, .int 2)]) := by
+  refine ⟨by rfl, by decide +kernel, by rfl, by decide +kernel⟩
 
 /-! ## Heap level: identity, mutation and sharing are observable
 
@@ -448,6 +568,99 @@ theorem fmtH_tuple_node (n : Nat) (ctx : HCtx) (isRec : Bool) (r r' : Nat) (st s
     intro i j x hij hi hj hx
     exact mapS_fmtH_shared rs st rs' st1 hm i j x hij hi hj hx
 
+
+/-- **Dict nodes** (every Mapping class the harness numbers: `dict`, ruamel's `CommentedMap`, `OrderedDict`,
+    subclasses — the class tag). Formatting a dict object that the memo does not yet answer for yields a NEW
+    dict cell with the SAME class tag (`obj.__class__(generator of pairs)`); keys and values are formatted pair
+    by pair in order (`kvs'`), a key or value that is a non-string leaf keeps its reference; of the pairs whose
+    FORMATTED keys are equal the new dict holds the FIRST key object and the LAST value object
+    (`dict.__setitem__`), every formatted key value is represented, and there are no more pairs than before. -/
+theorem fmtH_dict_node (n : Nat) (ctx : HCtx) (isRec : Bool) (r r' : Nat) (st st' : St)
+    (tag : Nat) (kvs : List (Ref × Ref))
+    (hn : MemoNoLeaf st) (hmiss : memoHit st r = none) (hc : st.heap[r]? = some (.dict tag kvs))
+    (hf : fmtH (n + 1) ctx isRec r st = .ok (r', st')) :
+    ∃ (kvs' kvs'' : List (Ref × Ref)) (h1 : Heap),
+      st'.heap = h1 ++ [.dict tag kvs''] ∧ r' = h1.length ∧ st.heap.length ≤ r' ∧
+      kvs'.length = kvs.length ∧
+      All₂ (fun kv kv' => KeepsLeaf st.heap kv.1 kv'.1 ∧ KeepsLeaf st.heap kv.2 kv'.2) kvs kvs' ∧
+      (∀ p ∈ kvs'', ∃ kv, deepVal h1 p.1 = some kv ∧ firstKeyH h1 kv kvs' = some p.1 ∧
+        lastValH h1 kv kvs' = some p.2) ∧
+      (∀ p ∈ kvs', ∃ q ∈ kvs'', deepVal h1 q.1 = deepVal h1 p.1) ∧
+      kvs''.length ≤ kvs.length := by
+  unfold fmtH at hf
+  rw [hmiss] at hf
+  simp only [hc] at hf
+  split at hf
+  · cases hf
+  · rename_i kvs' st1 hm
+    split at hf
+    · cases hf
+    · rename_i kvs'' hr
+      simp only [alloc] at hf
+      cases hf
+      have ⟨hall, g, _⟩ := mapS_rel (fun s => Good st s ∧ MemoNoLeaf s)
+        (fun (kv kv' : Ref × Ref) => KeepsLeaf st.heap kv.1 kv'.1 ∧ KeepsLeaf st.heap kv.2 kv'.2)
+        (fun kv s y s' hq hxy => dictStep_leaves kv s y s' hq hxy) kvs st kvs' st1 ⟨Good.refl st, hn⟩ hm
+      have hlen := mapS_length _ _ _ _ hm
+      obtain ⟨s1, s2, _, s4⟩ := rebuildDictH_spec hr
+      exact ⟨kvs', kvs'', st1.heap, rfl, rfl, g.ext.length_le, hlen, hall, s1, s2, by omega⟩
+
+/-- **Set nodes** (`set`, `frozenset` — tag 1 —, subclasses). A NEW set cell with the SAME class tag
+    (`obj.__class__(generator of members)`); members are formatted one by one (`rs'`), a non-string leaf member
+    keeps its reference; of the members whose FORMATTED values are equal the new set holds the FIRST object
+    (`set.add` keeps what is there), every formatted member value is represented, no more members than before. -/
+theorem fmtH_set_node (n : Nat) (ctx : HCtx) (isRec : Bool) (r r' : Nat) (st st' : St)
+    (tag : Nat) (rs : List Ref)
+    (hn : MemoNoLeaf st) (hmiss : memoHit st r = none) (hc : st.heap[r]? = some (.set tag rs))
+    (hf : fmtH (n + 1) ctx isRec r st = .ok (r', st')) :
+    ∃ (rs' rs'' : List Ref) (h1 : Heap),
+      st'.heap = h1 ++ [.set tag rs''] ∧ r' = h1.length ∧ st.heap.length ≤ r' ∧
+      rs'.length = rs.length ∧ All₂ (KeepsLeaf st.heap) rs rs' ∧
+      (∀ m ∈ rs'', ∃ mv, deepVal h1 m = some mv ∧ firstMemH h1 mv rs' = some m) ∧
+      (∀ m ∈ rs', ∃ q ∈ rs'', deepVal h1 q = deepVal h1 m) ∧
+      rs''.length ≤ rs.length := by
+  unfold fmtH at hf
+  rw [hmiss] at hf
+  simp only [hc] at hf
+  split at hf
+  · cases hf
+  · rename_i rs' st1 hm
+    split at hf
+    · cases hf
+    · rename_i rs'' hr
+      simp only [alloc] at hf
+      cases hf
+      have ⟨hall, g, _⟩ := mapS_rel (fun s => Good st s ∧ MemoNoLeaf s) (KeepsLeaf st.heap)
+        (fun m s y s' hq hxy => setStep_leaves m s y s' hq hxy) rs st rs' st1 ⟨Good.refl st, hn⟩ hm
+      have hlen := mapS_length _ _ _ _ hm
+      obtain ⟨fin, rfl, _, f2, f3, f4, _, f6⟩ := rebuildSetH_spec rs' [] rs'' (by intro e he; simp at he) (by simp) hr
+      refine ⟨rs', fin.map (·.2), st1.heap, rfl, rfl, g.ext.length_le, hlen, hall, ?_, ?_, ?_⟩
+      · intro m hm'
+        simp only [List.mem_map] at hm'
+        obtain ⟨e, he, rfl⟩ := hm'
+        rcases f3 e he with h' | ⟨_, hfm⟩
+        · simp at h'
+        · exact ⟨e.1, f2 e he, hfm⟩
+      · intro m hm'
+        obtain ⟨e, he, hd⟩ := f4 m hm'
+        exact ⟨e.2, List.mem_map.mpr ⟨e, he, rfl⟩, by rw [f2 e he, hd]⟩
+      · simp only [List.length_map]; simp only [List.length_nil] at f6; omega
+
+/- CommentedMap (tag 2) whose two keys format to the same text: cells 0 'x', 1 '{k}', 2 'x' (another object),
+   3 = 1, 4 = 2, 5 = the CommentedMap {'{k}': 1, 'x': 2}; context k -> 0. The result is a NEW tag-2 cell whose
+   single pair holds the FIRST key object (the context's 'x', object 0, which '{k}' evaluates to) and the LAST
+   value (object 4). A frozenset (tag 1) of the same two strings keeps the first member. -/
+example :
+    (match fmtHeap 6 [("k", 0)]
+        [.str "x", .str "{k}", .str "x", .leaf (.int 1), .leaf (.int 2), .dict 2 [(1, 3), (2, 4)], .set 1 [1, 2]] 5 with
+     | .ok (r, h) => (match h[r]? with | some (Cell.dict 2 [(0, 4)]) => true | _ => false)
+     | .error _ => false) = true ∧
+    (match fmtHeap 6 [("k", 0)]
+        [.str "x", .str "{k}", .str "x", .leaf (.int 1), .leaf (.int 2), .dict 2 [(1, 3), (2, 4)], .set 1 [1, 2]] 6 with
+     | .ok (r, h) => (match h[r]? with | some (Cell.set 1 [0]) => true | _ => false)
+     | .error _ => false) = true := by
+  constructor <;> decide +kernel
+
 /-- **Sharing (`fmtHeap_sharing`), general form.** Once a container object has been formatted the
     memo answers for it (`fmtH_records`), the answer survives every later call of the traversal
     (`Good.stable`), and a later occurrence returns that very reference without touching the
@@ -478,6 +691,129 @@ theorem fmtHeap_list (n : Nat) (ctx : HCtx) (h h' : Heap) (r r' : Nat) (tag : Na
     cases hf
     exact fmtH_list_node n ctx false r _ { heap := h, memo := [] } st tag rs
       (by intro x d hx; simp [memoGet] at hx) (by simp [memoHit, memoGet]) hc hst
+
+
+/-! ## The heap-level model simulates the tree-level model — for ANY sound memo
+
+  Three models of `_get_formatted_iterable` exist: `Pypyr.fmtIter` (trees, `PypyrModel/Fmt.lean`: what the
+  tree-level theorems above are about), `FmtHeap.fmtH` (objects: identity, sharing, the id-keyed memo) and
+  `Format.fmtIter` (trees, the full expression grammar: C08). This section ties the first two: whatever
+  `fmtH` returns READS AS what `fmtIter` computes from the tree reading of its input — so every identity
+  claim above is a claim about the same values the tree-level theorems speak of.
+
+  `Reads h r v` (Props/Lemmas/C09_Sim.lean): the object at `r` reads as the tree value `v` (= `readVal`
+  with enough fuel; on a heap whose objects refer to lower addresses only — `Ordered`, what the driver
+  admits — that is `deepVal h r = some v`). `CtxReads h hc c`: `c` is the tree reading of the context `hc`.
+  `LeafOk h`: `leaf` cells hold non-string leaves. `MemoSound c b st`: every memo entry `(x, d)` that
+  answers holds at `d` the formatted value of the value the CURRENT heap has at `x`. -/
+
+/-- **`fmtH_memo_sound`: a call made with an ARBITRARY sound memo.** If the incoming memo is sound, the
+    result reads as the tree-level formatted value of the input, and the memo handed on is sound again:
+    `MemoSound` is an invariant of every traversal; on an ordered heap the heap stays ordered. For all
+    heaps, memos, contexts, roots, flags and fuel. -/
+theorem fmtH_memo_sound (fuel : Nat) (hc : HCtx) (c : Ctx) (b : Bool) (r r' : Ref) (st st' : St) (v : Val)
+    (hleaf : LeafOk st.heap) (hctx : CtxReads st.heap hc c) (hmemo : MemoSound c b st)
+    (hv : Reads st.heap r v) (hf : fmtH fuel hc b r st = .ok (r', st')) :
+    (∃ fuel' w, fmtIter fuel' c b v = .ok w ∧ Reads st'.heap r' w) ∧ MemoSound c b st' ∧
+    (Ordered st.heap → Ordered st'.heap) := by
+  obtain ⟨o, inv, t⟩ := (fmtH_sim_all fuel).1 hc b r st r' st' c v hf ⟨hleaf, hctx, hmemo⟩ hv
+  exact ⟨t, inv.2.2, o⟩
+
+/-- **The result does not depend on the memo.** Two calls on the same object of the same heap, made with
+    two different sound memos (for instance: any sound memo and the empty one), return objects that read
+    as the SAME value. The memo is an optimisation, not an observable — as long as it is sound. -/
+theorem fmtH_memo_independent (f1 f2 : Nat) (hc : HCtx) (c : Ctx) (b : Bool) (r r1 r2 : Ref) (h : Heap)
+    (m1 m2 : Memo) (s1 s2 : St) (v : Val)
+    (hleaf : LeafOk h) (hctx : CtxReads h hc c) (hv : Reads h r v)
+    (hm1 : MemoSound c b { heap := h, memo := m1 }) (hm2 : MemoSound c b { heap := h, memo := m2 })
+    (h1 : fmtH f1 hc b r { heap := h, memo := m1 } = .ok (r1, s1))
+    (h2 : fmtH f2 hc b r { heap := h, memo := m2 } = .ok (r2, s2)) :
+    ∃ w, Reads s1.heap r1 w ∧ Reads s2.heap r2 w := by
+  obtain ⟨⟨fa, wa, ta, ra⟩, _, _⟩ := fmtH_memo_sound f1 hc c b r r1 _ s1 v hleaf hctx hm1 hv h1
+  obtain ⟨⟨fb, wb, tb, rb⟩, _, _⟩ := fmtH_memo_sound f2 hc c b r r2 _ s2 v hleaf hctx hm2 hv h2
+  have : wa = wb := fmtIter_unique ta tb
+  subst this
+  exact ⟨wa, ra, rb⟩
+
+/-- **`fmtH_simulates_tree`.** A top-level call (`Context.get_formatted_value`, empty memo): if the input
+    object reads as `v`, the result object reads as `fmtIter … v`. -/
+theorem fmtH_simulates_tree (fuel : Nat) (hc : HCtx) (c : Ctx) (h h' : Heap) (r r' : Ref) (v : Val)
+    (hleaf : LeafOk h) (hctx : CtxReads h hc c)
+    (hf : fmtHeap fuel hc h r = .ok (r', h')) (hv : deepVal h r = some v) :
+    ∃ fuel' w, Pypyr.fmtIter fuel' c false v = .ok w ∧ Reads h' r' w := by
+  unfold fmtHeap at hf
+  split at hf
+  · cases hf
+  · rename_i r1 st hst
+    cases hf
+    exact (fmtH_memo_sound fuel hc c false r _ _ st v hleaf hctx (MemoSound.nil _ _ _)
+      (Reads.of_deepVal hv) hst).1
+
+/-- … in the vocabulary of the driver: on an ORDERED heap (every object refers to lower addresses only:
+    `heapOk` of lean/Driver/OpHeap.lean) with the computed tree reading of the context,
+    `deepVal h' r' = some w` — the value the harness compares with the tree model's. -/
+theorem fmtH_simulates_tree_ordered (fuel : Nat) (hc : HCtx) (c : Ctx) (h h' : Heap) (r r' : Ref) (v : Val)
+    (hleaf : LeafOk h) (hord : Ordered h) (hctx : ctxVal h hc = some c)
+    (hf : fmtHeap fuel hc h r = .ok (r', h')) (hv : deepVal h r = some v) :
+    ∃ fuel' w, Pypyr.fmtIter fuel' c false v = .ok w ∧ deepVal h' r' = some w ∧ Ordered h' := by
+  unfold fmtHeap at hf
+  split at hf
+  · cases hf
+  · rename_i r1 st hst
+    cases hf
+    obtain ⟨⟨f, w, t, rd⟩, _, o⟩ := fmtH_memo_sound fuel hc c false r _ _ st v hleaf (ctxVal_reads hctx)
+      (MemoSound.nil _ _ _) (Reads.of_deepVal hv) hst
+    exact ⟨f, w, t, (o hord).deepVal rd, o hord⟩
+
+/-- the hypotheses are satisfiable, and the conclusion is what the models compute: the heap of the
+    example at the end of this file -/
+example : leafOkB [.str "v", .leaf (.obj 7), .str "{a}", .list 0 [2, 1], .list 0 [3, 3, 1]] = true ∧
+    orderedB [.str "v", .leaf (.obj 7), .str "{a}", .list 0 [2, 1], .list 0 [3, 3, 1]] = true ∧
+    ctxVal [.str "v", .leaf (.obj 7), .str "{a}", .list 0 [2, 1], .list 0 [3, 3, 1]] [("a", 0)]
+      = some [("a", .str "v")] ∧
+    deepVal [.str "v", .leaf (.obj 7), .str "{a}", .list 0 [2, 1], .list 0 [3, 3, 1]] 4
+      = some (.list [.list [.str "{a}", .obj 7], .list [.str "{a}", .obj 7], .obj 7]) ∧
+    fmtIter 6 [("a", .str "v")] false (.list [.list [.str "{a}", .obj 7], .list [.str "{a}", .obj 7], .obj 7])
+      = .ok (.list [.list [.str "v", .obj 7], .list [.str "v", .obj 7], .obj 7]) := by
+  refine ⟨by decide, by decide, by decide +kernel, by decide +kernel, by decide +kernel⟩
+
+/-! ## The memo when addresses can be re-used (counter-model `PypyrModel/FmtFree.lean`)
+
+  `FmtHeap` gives every object a permanent address, so the statements above say nothing about an object
+  that DIES during the traversal and whose address the next object gets. `FmtFree.fmtLazy keepAlive`
+  formats the members of a sequence that creates one fresh str per member while it is iterated, on a
+  heap with a free list; `keepAlive = true` is the code since /repo 2cfa9de (the memo keeps a reference to
+  every object it has an entry for), `false` the code before. -/
+
+/-- **With the repaired code no address of a memoised object is re-used while the memo lives**
+    (nothing is ever freed), **`MemoSound` is an invariant, and every member is formatted as itself**:
+    the references returned for the members read as `fmtIter` of each member's OWN text. -/
+theorem memo_keeps_alive_sound (fuel : Nat) (hc : HCtx) (c : Ctx) (b : Bool) (texts : List String)
+    (s s' : FmtFree.FSt) (rs : List Ref)
+    (hfree : s.free = []) (hleaf : LeafOk s.heap) (hctx : CtxReads s.heap hc c) (hmemo : MemoSound c b s.st)
+    (hf : FmtFree.fmtLazy true fuel hc b texts s = .ok (rs, s')) :
+    s'.free = [] ∧ MemoSound c b s'.st ∧
+    ∃ F ws, mapE (fmtIter F c b) (texts.map Val.str) = .ok ws ∧ All₂ (Reads s'.heap) rs ws := by
+  obtain ⟨h1, inv, _, t⟩ := fmtLazy_keep_sound fuel hc c b texts s rs s' hfree ⟨hleaf, hctx, hmemo⟩ hf
+  exact ⟨h1, inv.2.2, t⟩
+
+/-- **Before the repair soundness fails.** After the first member `'x{k0}'` of a lazily materialised
+    sequence was formatted (result at 3, memo `2 ↦ 3`), died, and the second member `'x{k1}'` was created
+    at its address 2, the memo is not sound (the state is the one `fmtLazy false` reaches:
+    Props/Lemmas/C09_Memo.lean). -/
+theorem memo_reuse_breaks_soundness : ¬ MemoSound wTree false wReused := memo_unsound_after_reuse
+
+/-- … and the observable consequence: `['x{k0}', 'x{k1}']` comes back as `['xv0', 'xv0']` with
+    `keepAlive = false`, as `['xv0', 'xv1']` — what the tree model says — with `keepAlive = true`. -/
+theorem memo_reuse_wrong_result :
+    (match FmtFree.fmtLazySeq false 6 wCtx 0 ["x{k0}", "x{k1}"] wHeap with
+     | .ok (r, h) => deepVal h r == some (.list [.str "xv0", .str "xv0"])
+     | .error _ => false) = true ∧
+    (match FmtFree.fmtLazySeq true 6 wCtx 0 ["x{k0}", "x{k1}"] wHeap with
+     | .ok (r, h) => deepVal h r == some (.list [.str "xv0", .str "xv1"])
+     | .error _ => false) = true ∧
+    fmtVal 6 wTree (.list [.str "x{k0}", .str "x{k1}"]) = .ok (.list [.str "xv0", .str "xv1"]) :=
+  lazy_prefix_wrong
 
 /- A concrete heap: cell 0 = 'v', 1 = Opaque object, 2 = '{a}', 3 = [2, 1], 4 = [3, 3, 1].
    Context a -> 0. Formatting cell 4 gives a new list [n, n, 1] with n a new list ['v'-object, 1]:
